@@ -14,7 +14,7 @@ verus! {
 //@end
 //@lift feos-dft/src/geometry.rs Axis::new_spherical
 //@end
-//@lift feos-dft/src/geometry.rs Axis::new_polar
+//@lift feos-dft/src/geometry.rs Axis::new_polar observe=k0 share_observed
 //@end
 //@lift feos-dft/src/geometry.rs Axis::volume
 //@end
@@ -94,7 +94,7 @@ pub proof fn contract_form_polar_first(points: int, length: real) by(nonlinear_a
     ensures ({
         let a = new_polar(points, length);
         let alpha = new_polar__havoc_alpha(points, length);
-        (a.integration_weights.at)(0) == (polar_k0(alpha) * rexp(2real * alpha)) * polar_c(points, alpha, length)
+        (a.integration_weights.at)(0) == (new_polar__k0(points, length) * rexp(2real * alpha)) * polar_c(points, alpha, length)
     })
 {}
 pub proof fn contract_form_polar_second(points: int, length: real) by(nonlinear_arith)
@@ -102,7 +102,7 @@ pub proof fn contract_form_polar_second(points: int, length: real) by(nonlinear_
     ensures ({
         let a = new_polar(points, length);
         let alpha = new_polar__havoc_alpha(points, length);
-        (a.integration_weights.at)(1) == ((rexp(2real * alpha) - polar_k0(alpha)) * rexp(2real * alpha)) * polar_c(points, alpha, length)
+        (a.integration_weights.at)(1) == ((rexp(2real * alpha) - new_polar__k0(points, length)) * rexp(2real * alpha)) * polar_c(points, alpha, length)
     })
 {}
 pub proof fn contract_form_polar_rest(points: int, length: real, i: int) by(nonlinear_arith)
@@ -205,17 +205,16 @@ proof fn lemma_exp_step(alpha: real, i: int)
     ax_exp_add((2real * alpha) * (i as real), 2real * alpha);
 }
 /// partial sums telescope: for n >= 2, sum_{i<n} w_i = exp(2 alpha n) * C
-proof fn lemma_polar_sum(n: int, f: spec_fn(int) -> real, alpha: real, c: real)
+proof fn lemma_polar_sum(n: int, f: spec_fn(int) -> real, alpha: real, c: real, k0: real)
     requires
         n >= 2,
-        f(0) == (polar_k0(alpha) * rexp(2real * alpha)) * c,
-        f(1) == ((rexp(2real * alpha) - polar_k0(alpha)) * rexp(2real * alpha)) * c,
+        f(0) == (k0 * rexp(2real * alpha)) * c,
+        f(1) == ((rexp(2real * alpha) - k0) * rexp(2real * alpha)) * c,
         forall|i: int| 2 <= i < n ==> #[trigger] f(i) == (rexp((2real * alpha) * (i as real)) * (rexp(2real * alpha) - 1real)) * c,
     ensures rsum(n, f) == rexp((2real * alpha) * (n as real)) * c
     decreases n
 {
     let q = rexp(2real * alpha);
-    let k0 = polar_k0(alpha);
     if n == 2 {
         reveal_with_fuel(rsum, 3);
         lemma_exp_step(alpha, 1);
@@ -227,7 +226,7 @@ proof fn lemma_polar_sum(n: int, f: spec_fn(int) -> real, alpha: real, c: real)
         assert(rsum(2, f) == 0real + f(0) + f(1));
         assert((k0 * q) * c + ((q - k0) * q) * c == (q * q) * c) by(nonlinear_arith);
     } else {
-        lemma_polar_sum(n - 1, f, alpha, c);
+        lemma_polar_sum(n - 1, f, alpha, c, k0);
         lemma_exp_step(alpha, n - 1);
         let e = rexp((2real * alpha) * ((n - 1) as real));
         assert(rsum(n, f) == e * c + (e * (q - 1real)) * c);
@@ -251,7 +250,7 @@ pub proof fn contract_polar_volume_is_sum_of_weights(points: int, length: real)
     assert forall|i: int| 2 <= i < points implies #[trigger] (a.integration_weights.at)(i) == (rexp((2real * alpha) * (i as real)) * (rexp(2real * alpha) - 1real)) * c by {
         contract_form_polar_rest(points, length, i);
     }
-    lemma_polar_sum(points, a.integration_weights.at, alpha, c);
+    lemma_polar_sum(points, a.integration_weights.at, alpha, c, new_polar__k0(points, length));
     // exp(2 alpha n) * exp(-2 alpha n) = 1
     let x = (2real * alpha) * (points as real);
     let y = ((-(2real)) * alpha) * (points as real);
